@@ -822,12 +822,49 @@ pub fn sampled_check(case: &Case, world_b: &[Value], n: usize, seed: u64) -> Sam
 }
 
 /// Workloads for the sampled mode: wider scalar types, protocols with their own masks.
-pub fn gen_sampled(rng: &mut Rng) -> Option<(Case, Vec<Value>)> {
+pub fn gen_sampled(rng: &mut Rng, heavy: bool) -> Option<(Case, Vec<Value>)> {
     use ciphercore_base::data_types::{INT32, INT64, UINT16, UINT8};
     let st = *rng.pick(&[UINT8, UINT16, INT32, INT64]);
     let shape = if rng.chance(1, 2) { vec![] } else { vec![2] };
     let t = crate::gen::mk_type(&shape, st);
-    let kind = rng.below(8);
+    let kind = rng.below(if heavy { 10 } else { 8 });
+    if kind >= 8 {
+        // heavy protocols (thorough tier): B2A of private bit strings, comparison of private integers
+        use ciphercore_base::data_types::UINT8;
+        let t8 = scalar_type(UINT8);
+        let bt = array_type(vec![8], BIT);
+        let (steps, in_types): (Vec<Step>, Vec<Type>) = if kind == 8 {
+            (
+                vec![
+                    Step { op: Operation::Input(bt.clone()), deps: vec![], gdeps: vec![] },
+                    Step { op: Operation::Input(bt.clone()), deps: vec![], gdeps: vec![] },
+                    Step { op: Operation::Add, deps: vec![0, 1], gdeps: vec![] },
+                    Step { op: Operation::B2A(UINT8), deps: vec![2], gdeps: vec![] },
+                ],
+                vec![bt.clone(), bt.clone()],
+            )
+        } else {
+            (
+                vec![
+                    Step { op: Operation::Input(t8.clone()), deps: vec![], gdeps: vec![] },
+                    Step { op: Operation::Input(t8.clone()), deps: vec![], gdeps: vec![] },
+                    Step { op: Operation::A2B, deps: vec![0], gdeps: vec![] },
+                    Step { op: Operation::A2B, deps: vec![1], gdeps: vec![] },
+                    Step { op: Operation::Custom(ciphercore_base::custom_ops::CustomOperation::new(ciphercore_base::ops::comparisons::GreaterThan { signed_comparison: false })), deps: vec![2, 3], gdeps: vec![] },
+                ],
+                vec![t8.clone(), t8.clone()],
+            )
+        };
+        let output = steps.len() - 1;
+        let prog = Prog { graphs: vec![GraphD { steps, output, ..Default::default() }] };
+        prog.build().ok()?;
+        let owners: Vec<Owner> = (0..2).map(|_| *rng.pick(&[Owner::Party(0), Owner::Party(1), Owner::Party(2), Owner::Shared])).collect();
+        let outputs = crate::gen::gen_outputs(rng);
+        let mk = |t: &Type, rng: &mut Rng| -> Value { crate::vals::random_value(t, rng) };
+        let a: Vec<Value> = in_types.iter().map(|t| crate::vals::const_value(t, 0)).collect();
+        let b: Vec<Value> = in_types.iter().map(|t| mk(t, rng)).collect();
+        return Some((Case { prog, owners, outputs, inline: Inline::Simple, inputs: a }, b));
+    }
     if kind >= 6 {
         // secure sort of a table with private bit keys (several radix rounds) - observers are non-recipients
         let rows = 4 + rng.below(3);
@@ -1206,10 +1243,12 @@ pub fn run_c03(args: &Args) -> i32 {
                     key: 0x07,
                 }
             } else {
-                match gen_sampled(&mut rng) {
+                match gen_sampled(&mut rng, args.tier == Tier::Thorough) {
                     None => C03Out { violation: None, runs: 0, mode: "sampled", live_bits: vec![], classes: 0, worlds: 0, tests: 0, skipped: Some("generator".into()), sample: None, key: 0 },
                     Some((case, wb)) => {
                         let sseed = rng.next_u64();
+                        let heavy_graph = case.prog.main().steps.iter().any(|s| matches!(s.op, Operation::B2A(_) | Operation::Custom(_)));
+                        let samples = if heavy_graph { samples.min(1500) } else { samples };
                         let r = sampled_check(&case, &wb, samples, sseed);
                         let key = crate::rng::hash_str(&format!("{}|{:?}|{:?}", case.prog.summary(), case.owners, case.outputs));
                         C03Out {
